@@ -26,7 +26,7 @@ EXPLANATION = (
 ASSUMPTIONS = ["hooks do not raise", "inline executor", "concurrent messages are checked per message in C02/C07 harnesses; here one message per run"]
 TRUSTED = ["CPython asyncio (real, virtual clock)", "vt.sym explorer", "recording middlewares"]
 BOUNDS = {"middlewares": "0..2 quick (3 kinds per hook), 3 thorough (2 kinds per hook)", "messages": 1}
-REQUIRED_COVERS = ["future_hook", "exec", "send", "kick_failed", "async_hook", "sync_hook", "no_hook", "replace", "post_save_skipped", "on_error_ran"]
+REQUIRED_COVERS = ["via_listen", "future_hook", "exec", "send", "kick_failed", "async_hook", "sync_hook", "no_hook", "replace", "post_save_skipped", "on_error_ran"]
 
 EXEC_HOOKS = ("pre_execute", "on_error", "post_execute", "post_save")
 SEND_HOOKS = ("pre_send", "post_send")
@@ -35,7 +35,9 @@ KINDS2 = (None, "async")
 KINDSF = ("sync", "future")  # hooks that return an awaitable which is not a coroutine
 
 
-def cases(tier: str) -> List[Any]:
+def cases(tier: str, hname: str = "harness") -> List[Any]:
+    if hname == "via_listen":
+        return [{"M": 3, "K": 5 if tier == "quick" else 6, "prefix": [p], "cfg": cfg} for p in range(3) for cfg in ("quota", "plain")]
     out: List[Any] = []
     for outcome in ("return", "raise_exc", "no_result"):
         for bf in (False, True):
@@ -207,3 +209,24 @@ def send_side(c: sym.Ctx, case: Dict[str, Any]) -> None:
 
 def budget(tier: str) -> Dict[str, Any]:
     return {"max_paths": 400000, "budget_s": 900 if tier == "quick" else 3000}
+
+
+def via_listen(c: sym.Ctx, case: Dict[str, Any]) -> None:
+    """each overridden execute-side hook exactly once per delivered message when the messages come through Receiver.listen"""
+    from vt.props import _listen
+
+    c.cover("via_listen")
+    M = case["M"]
+    outcomes = ["return", c.choose(["return", "raise"], "outcome1"), "return"]
+    spec = {"M": M, "kinds": ["valid"] * M, "outcomes": outcomes, "A": "sym", "P": "sym", "N": "sym" if case["cfg"] == "quota" else "none",
+            "wtt": None, "K": case["K"], "prefix": case["prefix"], "record_mw": True}
+    r = _listen.run(c, spec)
+    ev = r.lab.ev
+    c.check(r.returned and not r.stuck, "run_completes", info=r.info)
+    for i in sorted({e[1] for e in ev if e[0] == "taken"}):
+        got = [e[2] for e in ev if e[0] == "hook" and e[3] == f"id{i}"]
+        want = ["pre_execute"] + (["on_error"] if outcomes[i] == "raise" else []) + ["post_execute", "post_save"]
+        c.check(got == want, "exec_hook_sequence", msg=i, got=got, want=want, via="listen", A=r.A, P=r.P, N=r.N)
+
+
+HARNESSES = {"harness": harness, "via_listen": via_listen}
